@@ -2,6 +2,7 @@
   TFV.Lemmas.Select — proofs for the C11 selection / sampling contracts.
 -/
 import TFV.Model.Select
+import Mathlib.Logic.Function.Iterate
 
 namespace TFV.Select
 
@@ -706,5 +707,280 @@ theorem pbest_spec (vals : List Int) (pn pd : Nat) (hne : vals ≠ []) (hpd : 0 
       rw [this]; exact List.getElem_mem _
     rw [hget p hp, ← hval p (by omega), ← getD_eq_getElem idx q 0 hq, ← hval q (by omega)]
     exact hs p (by omega) q (by omega) (by omega)
+
+/-! ### sampling: progress -/
+
+theorem sampleNoRepl_progress_aux (draws : List Nat) : ∀ (k : Nat) (acc : List Nat),
+    k ≤ ((draws.filter fun d => !acc.contains d).eraseDups).length →
+    (sampleNoRepl draws k acc).isSome = true := by
+  induction draws with
+  | nil =>
+    intro k acc h
+    have : k = 0 := by simpa using h
+    subst this; simp [sampleNoRepl]
+  | cons d ds ih =>
+    intro k acc h
+    cases k with
+    | zero => simp [sampleNoRepl]
+    | succ k =>
+      simp only [sampleNoRepl]
+      by_cases hc : acc.contains d = true
+      · simp only [hc, if_true]
+        apply ih
+        rw [List.filter_cons] at h
+        simp only [hc, Bool.not_true, Bool.false_eq_true, if_false] at h
+        exact h
+      · simp only [hc]
+        apply ih
+        have hc' : acc.contains d = false := by simpa using hc
+        rw [List.filter_cons] at h
+        simp only [hc', Bool.not_false, if_true] at h
+        rw [List.eraseDups_cons, List.length_cons, List.filter_filter] at h
+        have hfun : (fun a => (!a == d) && !acc.contains a) = fun a => !(d :: acc).contains a := by
+          funext a; by_cases h : a = d <;> simp [h]
+        rw [hfun] at h
+        omega
+
+theorem sampleNoRepl_progress (draws : List Nat) (k : Nat)
+    (h : k ≤ draws.eraseDups.length) : (sampleNoRepl draws k []).isSome = true := by
+  apply sampleNoRepl_progress_aux
+  have : (draws.filter fun d => !([] : List Nat).contains d) = draws :=
+    List.filter_eq_self.mpr (fun a _ => by simp)
+  rw [this]; exact h
+
+/-! ### Sattolo -/
+
+theorem sattoloAux_perm {α : Type} : ∀ (i : Nat) (js : List Nat) (l : List α),
+    (sattoloAux l i js).Perm l := by
+  intro i
+  induction i with
+  | zero => intro js l; simp [sattoloAux]
+  | succ i ih =>
+    intro js l
+    cases js with
+    | nil => simp [sattoloAux]
+    | cons j js =>
+      simp only [sattoloAux]
+      exact (ih js _).trans (swap_perm l (i + 1) j)
+
+theorem sattolo_perm {α : Type} (l : List α) (js : List Nat) : (sattolo l js).Perm l :=
+  sattoloAux_perm _ js l
+
+/-- the transposition `(a b)` on positions -/
+def tr (a b x : Nat) : Nat := if x = a then b else if x = b then a else x
+
+/-- the position map accumulated by the loop: `sattoloAux l i js = l ∘ rho i js` -/
+def rho : Nat → List Nat → Nat → Nat
+  | 0, _ => id
+  | _ + 1, [] => id
+  | i + 1, j :: js => fun x => tr (i + 1) j (rho i js x)
+
+theorem swap_getD_tr {α : Type} (l : List α) (i j : Nat) (hi : i < l.length) (hj : j < l.length)
+    (p : Nat) (d : α) : (swap l i j).getD p d = l.getD (tr i j p) d := by
+  rw [swap_getD l i j hi hj]
+  unfold tr
+  by_cases h1 : p = i
+  · subst h1
+    by_cases h2 : p = j
+    · subst h2; simp
+    · simp [h2]
+  · by_cases h2 : p = j
+    · subst h2; simp [h1]
+    · simp [h1, h2]
+
+theorem sattoloAux_getD {α : Type} (d : α) : ∀ (i : Nat) (js : List Nat) (l : List α),
+    i ≤ l.length - 1 → sattoloOk i js = true →
+    ∀ x, (sattoloAux l i js).getD x d = l.getD (rho i js x) d := by
+  intro i
+  induction i with
+  | zero => intro js l _ _ x; simp [sattoloAux, rho]
+  | succ i ih =>
+    intro js l hi hok x
+    cases js with
+    | nil => simp [sattoloOk] at hok
+    | cons j js =>
+      simp only [sattoloOk, Bool.and_eq_true, decide_eq_true_eq] at hok
+      simp only [sattoloAux, rho]
+      rw [ih js (swap l (i + 1) j) (by rw [swap_length]; omega) hok.2 x]
+      exact swap_getD_tr l (i + 1) j (by omega) (by omega) _ d
+
+/-- reachability by iteration -/
+def Reach (f : Nat → Nat) (a b : Nat) : Prop := ∃ k, Nat.iterate f k a = b
+
+theorem Reach.refl (f : Nat → Nat) (a : Nat) : Reach f a a := ⟨0, rfl⟩
+
+theorem Reach.head {f : Nat → Nat} {a b : Nat} (h : Reach f (f a) b) : Reach f a b := by
+  obtain ⟨k, hk⟩ := h
+  exact ⟨k + 1, hk⟩
+
+theorem Reach.trans {f : Nat → Nat} {a b c : Nat} (h1 : Reach f a b) (h2 : Reach f b c) :
+    Reach f a c := by
+  obtain ⟨k, hk⟩ := h1
+  induction k generalizing a with
+  | zero => simp only [Nat.iterate] at hk; subst hk; exact h2
+  | succ k ih => exact Reach.head (ih hk)
+
+theorem Reach.single (f : Nat → Nat) (a : Nat) : Reach f a (f a) := ⟨1, rfl⟩
+
+/-- `g` is a single cycle on `{0..i}` and the identity above -/
+structure CycleOn (i : Nat) (g : Nat → Nat) : Prop where
+  fix : ∀ x, i < x → g x = x
+  closed : ∀ x, x ≤ i → g x ≤ i
+  reach : ∀ a b, a ≤ i → b ≤ i → Reach g a b
+
+theorem cycleOn_reach_closed {i : Nat} {g : Nat → Nat} (h : CycleOn i g) (a k : Nat) (ha : a ≤ i) :
+    Nat.iterate g k a ≤ i := by
+  induction k generalizing a with
+  | zero => exact ha
+  | succ k ih => exact ih (g a) (h.closed a ha)
+
+/-- every point of the cycle has a predecessor on the cycle -/
+theorem cycleOn_pred {i : Nat} {g : Nat → Nat} (h : CycleOn i g) (j : Nat) (hj : j ≤ i) :
+    ∃ c, c ≤ i ∧ g c = j := by
+  obtain ⟨k, hk⟩ := h.reach (g j) j (h.closed j hj) hj
+  -- g^[k] (g j) = j ; walk: find the last point before returning
+  have key : ∀ (k : Nat) (a : Nat), a ≤ i → Nat.iterate g (k + 1) a = j → ∃ c, c ≤ i ∧ g c = j := by
+    intro k
+    induction k with
+    | zero => intro a ha hk; exact ⟨a, ha, hk⟩
+    | succ k ih => intro a ha hk; exact ih (g a) (h.closed a ha) hk
+  exact key k j hj hk
+
+theorem cycleOn_step (i j : Nat) (g : Nat → Nat) (hj : j ≤ i) (h : CycleOn i g) :
+    CycleOn (i + 1) (fun x => tr (i + 1) j (g x)) := by
+  have hfix := h.fix (i + 1) (by omega)
+  -- behaviour of the new map
+  have e1 : ∀ x, x ≤ i → g x = j → tr (i + 1) j (g x) = i + 1 := by
+    intro x hx hg
+    have := h.closed x hx
+    unfold tr; rw [hg]
+    rw [if_neg (by omega), if_pos rfl]
+  have e2 : ∀ x, x ≤ i → g x ≠ j → tr (i + 1) j (g x) = g x := by
+    intro x hx hg
+    have := h.closed x hx
+    unfold tr
+    rw [if_neg (by omega), if_neg hg]
+  have e3 : tr (i + 1) j (g (i + 1)) = j := by
+    rw [hfix]; unfold tr; rw [if_pos rfl]
+  -- old paths lift to new paths
+  have lift : ∀ (k a b : Nat), a ≤ i → Nat.iterate g k a = b →
+      Reach (fun x => tr (i + 1) j (g x)) a b := by
+    intro k
+    induction k with
+    | zero => intro a b _ hk; simp only [Nat.iterate] at hk; subst hk; exact Reach.refl _ _
+    | succ k ih =>
+      intro a b ha hk
+      have hga := h.closed a ha
+      have hrest := ih (g a) b hga hk
+      by_cases hg : g a = j
+      · apply Reach.head; show Reach _ (tr (i + 1) j (g a)) b
+        rw [e1 a ha hg]
+        apply Reach.head; show Reach _ (tr (i + 1) j (g (i + 1))) b
+        rw [e3]; rw [hg] at hrest; exact hrest
+      · apply Reach.head; show Reach _ (tr (i + 1) j (g a)) b
+        rw [e2 a ha hg]; exact hrest
+  have lift' : ∀ a b, a ≤ i → b ≤ i → Reach (fun x => tr (i + 1) j (g x)) a b := by
+    intro a b ha hb
+    obtain ⟨k, hk⟩ := h.reach a b ha hb
+    exact lift k a b ha hk
+  obtain ⟨c, hc, hgc⟩ := cycleOn_pred h j hj
+  have toTop : ∀ a, a ≤ i → Reach (fun x => tr (i + 1) j (g x)) a (i + 1) := by
+    intro a ha
+    refine Reach.trans (lift' a c ha hc) ?_
+    have := Reach.single (fun x => tr (i + 1) j (g x)) c
+    simp only [e1 c hc hgc] at this
+    exact this
+  have fromTop : ∀ b, b ≤ i → Reach (fun x => tr (i + 1) j (g x)) (i + 1) b := by
+    intro b hb
+    apply Reach.head; show Reach _ (tr (i + 1) j (g (i + 1))) b
+    rw [e3]; exact lift' j b hj hb
+  refine ⟨?_, ?_, ?_⟩
+  · intro x hx
+    show tr (i + 1) j (g x) = x
+    rw [h.fix x (by omega)]
+    unfold tr; rw [if_neg (by omega), if_neg (by omega)]
+  · intro x hx
+    show tr (i + 1) j (g x) ≤ i + 1
+    by_cases hxi : x ≤ i
+    · by_cases hg : g x = j
+      · rw [e1 x hxi hg]; exact Nat.le_refl _
+      · rw [e2 x hxi hg]; have := h.closed x hxi; omega
+    · have : x = i + 1 := by omega
+      subst this; rw [e3]; omega
+  · intro a b ha hb
+    by_cases hai : a ≤ i
+    · by_cases hbi : b ≤ i
+      · exact lift' a b hai hbi
+      · have : b = i + 1 := by omega
+        subst this; exact toTop a hai
+    · have : a = i + 1 := by omega
+      subst this
+      by_cases hbi : b ≤ i
+      · exact fromTop b hbi
+      · have : b = i + 1 := by omega
+        subst this; exact Reach.refl _ _
+
+theorem rho_cycleOn : ∀ (i : Nat) (js : List Nat), sattoloOk i js = true → CycleOn i (rho i js) := by
+  intro i
+  induction i with
+  | zero =>
+    intro js _
+    refine ⟨fun x _ => by simp [rho], fun x hx => by simpa [rho] using hx, fun a b ha hb => ?_⟩
+    have : a = b := by omega
+    subst this; exact Reach.refl _ _
+  | succ i ih =>
+    intro js hok
+    cases js with
+    | nil => simp [sattoloOk] at hok
+    | cons j js =>
+      simp only [sattoloOk, Bool.and_eq_true, decide_eq_true_eq] at hok
+      exact cycleOn_step i j (rho i js) (by omega) (ih js hok.2)
+
+/-- the shuffled index vector, read as a function, agrees with `rho` on `[0, n)` -/
+theorem sattolo_range_getD (n : Nat) (js : List Nat) (hok : sattoloOk (n - 1) js = true)
+    (x : Nat) (hx : x < n) :
+    (sattolo (List.range n) js).getD x 0 = rho (n - 1) js x := by
+  unfold sattolo
+  rw [List.length_range, sattoloAux_getD 0 (n - 1) js (List.range n) (by simp) hok x]
+  have := (rho_cycleOn (n - 1) js hok).closed x (by omega)
+  exact range_getD n _ (by omega)
+
+theorem sattolo_iterate (n : Nat) (js : List Nat) (hok : sattoloOk (n - 1) js = true) :
+    ∀ (k a : Nat), a < n →
+      Nat.iterate (fun x => (sattolo (List.range n) js).getD x 0) k a
+        = Nat.iterate (rho (n - 1) js) k a := by
+  intro k
+  induction k with
+  | zero => intro a _; rfl
+  | succ k ih =>
+    intro a ha
+    simp only [Nat.iterate]
+    rw [sattolo_range_getD n js hok a ha]
+    apply ih
+    have := (rho_cycleOn (n - 1) js hok).closed a (by omega)
+    omega
+
+theorem sattolo_cyclic (n : Nat) (js : List Nat) (hok : sattoloOk (n - 1) js = true) :
+    let σ := sattolo (List.range n) js
+    ∀ i j, i < n → j < n → ∃ k, Nat.iterate (fun x => σ.getD x 0) k i = j := by
+  intro σ i j hi hj
+  obtain ⟨k, hk⟩ := (rho_cycleOn (n - 1) js hok).reach i j (by omega) (by omega)
+  exact ⟨k, by rw [sattolo_iterate n js hok k i hi]; exact hk⟩
+
+theorem iterate_fixed (f : Nat → Nat) (a : Nat) (h : f a = a) : ∀ k, Nat.iterate f k a = a := by
+  intro k
+  induction k with
+  | zero => rfl
+  | succ k ih => simp only [Nat.iterate]; rw [h]; exact ih
+
+theorem sattolo_no_fixed_point (n : Nat) (js : List Nat) (hn : 2 ≤ n)
+    (hok : sattoloOk (n - 1) js = true) :
+    ∀ i, i < n → (sattolo (List.range n) js).getD i 0 ≠ i := by
+  intro i hi hfix
+  have hc := sattolo_cyclic n js hok
+  simp only at hc
+  obtain ⟨k, hk⟩ := hc i (if i = 0 then 1 else 0) hi (by split <;> omega)
+  rw [iterate_fixed _ i hfix k] at hk
+  split at hk <;> omega
 
 end TFV.Select
